@@ -3484,7 +3484,7 @@ func _case(n *node) {
 			v0 := value(f)
 			for _, v := range values {
 				v1 := v(f)
-				if !v0.Type().AssignableTo(v1.Type()) {
+				if v0.Kind() != reflect.Interface && v1.Kind() != reflect.Interface && !v0.Type().AssignableTo(v1.Type()) {
 					v0 = v0.Convert(v1.Type())
 				}
 				if v0.Interface() == v1.Interface() {
